@@ -321,11 +321,11 @@ PROPS["C20"] = {
 }
 
 # free-running passes under the race detector (see sim/freerun.go)
-for _p in ("C02", "C03", "C05", "C10", "C12"):
+for _p in ("C02", "C03", "C05", "C07", "C10", "C12"):
     PROPS[_p]["passes"] = [{"variant": ""}, {"race": True, "variant": "race", "quick_runs": 48, "thorough_runs": 600, "workers": 8}]
     PROPS[_p]["race_files"] = ()  # any access inside the repository (harness frames excluded)
     PROPS[_p]["rule"] += ("; plus a free-running pass of the -race binary: 2-16 clients in truly parallel goroutines (logins of different users and sizes, simultaneous staleness of all "
-                         "sessions on two replicas; for C03 / C05 with csrf-per-request, encode-state and PKCE drawn per world): every login must succeed, every browser must load its own "
+                         "sessions on two replicas; for C03 / C05 with csrf-per-request, encode-state and PKCE drawn per world, for C07 with basic-auth / user / token header injection whose values are compared per client): every login must succeed, every browser must load its own "
                          "session, and any race-detector report whose conflicting accesses lie in repository code - or inside a dependency object that BOTH goroutines reached through "
                          "repository code - is a violation")
 
@@ -333,7 +333,7 @@ for _p in ("C02", "C03", "C05", "C10", "C12"):
 for _p, _n in {"C01": 2400, "C02": 240, "C03": 6000, "C04": 3200, "C05": 12000, "C06": 480, "C07": 6000, "C08": 8000, "C09": 6400, "C10": 8000, "C11": 16000,
                "C12": 12000, "C13": 1600, "C14": 800, "C15": 800, "C16": 8000, "C17": 2400, "C18": 16000, "C19": 3000}.items():
     PROPS[_p]["quick_runs"] = _n
-for _p in ("C02", "C03", "C05"):
+for _p in ("C02", "C03", "C05", "C07"):
     PROPS[_p]["passes"] = [{"variant": ""}, {"race": True, "variant": "race", "quick_runs": 120, "thorough_runs": 1200, "workers": 8, "quick_budget_s": 60}]
 for _p in ("C10", "C12"):
     PROPS[_p]["passes"] = [{"variant": ""}, {"race": True, "variant": "race", "quick_runs": 160, "thorough_runs": 1600, "workers": 8, "quick_budget_s": 60}]
